@@ -353,7 +353,7 @@ def observe_where(Ps, amap, entries=("attr", "derive")):
         if r.get("class") in ("panic", "unlexable", "unparsable"):
             nerr = -1
         else:
-            its = [i for i in r["items"] if i["kind"] == "impl" and i["trait"] == tpath]
+            its = [i for i in r["items"] if i["kind"] == "impl" and i["trait"].split("::")[-1] == P["t"]]
             nerr = sum(1 for i in r["items"] if i["kind"] == "compile_error")
             forms = impl_forms(P["t"])
             for k, it in enumerate(its):
